@@ -163,7 +163,9 @@ def gen_case(run_seed: int, index: int, tier: str) -> dict:
     zero_msg = rng.random() < 0.05
     case["messages"] = [[0 if zero_msg else rng.randrange(2) for _ in range(b * k)] for _ in range(B)]
     if rng.random() < 0.3:  # the same chain object has been used before (other batch sizes, same framing)
-        case["warmup_messages"] = [[[rng.randrange(2) for _ in range(b * k)] for _ in range(rng.choice([1, 1, 2, 3]))] for _ in range(rng.choice([1, 1, 2, 3]))]
+        case["warmup_messages"] = [[[rng.randrange(2) for _ in range(b * k)] for _ in range(rng.choice([1, 1, 2, 3]))] for _ in range(rng.choice([1, 1, 2, 3, 5]))]
+        if rng.random() < 0.2:  # one earlier call is malformed (one bit too many) and raises; the chain is used again afterwards
+            case["warmup_messages"].insert(rng.randrange(len(case["warmup_messages"]) + 1), [[rng.randrange(2) for _ in range(b * k + 1)]])
     if rng.random() < 0.15:  # a similar code (same encoder class, same n and k) was set up earlier in the process
         sib = C.sibling_spec(rng, spec)
         if sib is not None:
